@@ -36,7 +36,7 @@ META = {
             "(3) Not modelled: mimeHeader() contents (cleanMimePrefix/unfoldMime of the trailer block), customExtensionValueParser "
             "(ICAP use-original-body). BWS after chunk-size without extensions (Bug 4492) and VT/FF/bare-CR as BWS in relaxed mode are "
             "tolerances the oracle does not judge. Trusted: Coq kernel, extraction, harness/h_chunked.cc, gen/gen_charsets.cc; the "
-            "hand-written ChunkedModel.v is validated against the code only on the generated cases (12.7k quick / 150k thorough).",
+            "hand-written ChunkedModel.v is validated against the code only on the generated cases (9.7k quick / 150k thorough).",
     "technique": "Coq proof: stability-under-extension of every Tokenizer primitive and parser stage for arbitrary buffers, restart-point "
                  "lemma for the chunk-ext checkpoint, fuel-independence and output-prefix lemmas for the parse loop, instantiation of "
                  "Incremental.v (drive = one-shot); inductive invariant of one parse() call and of the callers' loop over capacity "
@@ -559,5 +559,5 @@ def run(res, tier):
                 "trailer sizes at the 64 KB limit; a case is non-trivial when parse() completed, produced output or was called at least twice")
     std.run_standard(res, PID, tier, area="chunked", build_impl=impl, gen_cases=gen_cases, oracle=oracle,
                      corr_name="ChunkedModel vs src/http/one/TeChunkedParser.cc, src/http/one/Tokenizer.cc, src/parser/Tokenizer.cc",
-                     gens=["charsets"], n_quick=12000, n_thorough=150000, seed_salt=24, mutate=mutate,
+                     gens=["charsets"], n_quick=9000, n_thorough=150000, seed_salt=24, mutate=mutate,
                      kind_fn=kind_fn, nontrivial_fn=nontrivial_fn)
